@@ -34,6 +34,7 @@ RULE = (
     "a peer cancelled at its k-th step or a peer's k-th data event raising. Each surviving task is compared with its isolated "
     "reference. Non-trivial = at least two render tasks alternate (A..B..A) in the executed task trace; distinct = digest "
     "(program, entries, data seeds, task trace)."
+    ' Environment classes Environment / NativeEnvironment / SandboxedEnvironment; generate_async consumers may suspend between chunks; programs tagged module_state / module_eval_ctx are classified as KF-C29-1 / KF-C37-1 only if a fresh environment per task removes the mismatch.'
 )
 ASSUMPTIONS = [
     "the isolated reference is the same jinja code rendering alone on a fresh environment (differential oracle)",
@@ -206,7 +207,7 @@ def run(tape: Tape) -> Outcome:
     ENVCLS[0] = (0, 0, 0, 0, 0, 1, 2, 2)[tape.draw(8, "m")]
     out.count("env_class_" + ("Environment", "NativeEnvironment", "SandboxedEnvironment")[ENVCLS[0]])
     P = Gen(tape, is_async=True, loopcontrols=lc, size=size, allow_module_state=tagged_ok, env_globals=True,
-            template_globals=True, native=ENVCLS[0] == 1, pair_den=8).generate()
+            template_globals=True, native=ENVCLS[0] == 1, pair_den=4).generate()
     # template-level globals, fixed per template name (documented use); 'main' and 'base' are never
     # included or imported by others, so the documented "cached template keeps its globals" cannot interfere
     tg = {}
@@ -308,3 +309,7 @@ def run(tape: Tape) -> Outcome:
         if gc_was:
             gc.enable()
     return out
+
+from sim.core import guarded as _guarded  # noqa: E402
+
+run = _guarded(run)
